@@ -20,6 +20,7 @@ package dns
 
 import (
 	"context"
+	"errors"
 	"net"
 	"strconv"
 	"strings"
@@ -91,6 +92,23 @@ func (e ExtResolver) exchange(ctx context.Context, msg *dns.Msg) (*dns.Msg, erro
 		resp, _, lastErr = e.cl.ExchangeContext(ctx, msg, net.JoinHostPort(srv, e.Cfg.Port))
 		if lastErr != nil {
 			continue
+		}
+
+		if resp.Truncated {
+			// The answer did not fit into the UDP message (resolvers
+			// do not split RRsets: it has no records at all then).
+			// Taking it as is would mean "no records" for the caller,
+			// with the AD flag set.
+			tcpCl := *e.cl
+			tcpCl.Net = "tcp"
+			resp, _, lastErr = tcpCl.ExchangeContext(ctx, msg, net.JoinHostPort(srv, e.Cfg.Port))
+			if lastErr != nil {
+				continue
+			}
+			if resp.Truncated {
+				lastErr = errors.New("dns: truncated response over TCP")
+				continue
+			}
 		}
 
 		if resp.Rcode != dns.RcodeSuccess {
